@@ -135,7 +135,9 @@ MergeTbl(B, O, T, cherry) ==
 MergeRoots(O, T, B, cherry) ==
     LET m == [t \in Tables |-> MergeTbl(B[t], O[t], T[t], cherry)]
         bad(s) == \E t \in Tables : m[t].st = s
-    IN [st |-> IF bad("unsup") THEN "unsup" ELSE IF bad("moddel") THEN "moddel" ELSE IF bad("twice") THEN "twice"
+    \* the code merges table by table and returns the FIRST error; which of two different errors that is depends on the
+    \* order of the names -- roots with both kinds of error are not generated
+    IN [st |-> IF bad("unsup") \/ (bad("moddel") /\ bad("twice")) THEN "unsup" ELSE IF bad("moddel") THEN "moddel" ELSE IF bad("twice") THEN "twice"
                ELSE IF bad("conf") THEN "conf" ELSE "ok",
         root |-> [t \in Tables |-> m[t].tbl],
         cf |-> [t \in Tables |-> m[t].cf],
